@@ -28,7 +28,7 @@ func init() {
 func runC11(c *Ctx) {
 	p := c.Progs["mod"]
 	c.Rule("C11.E", "encoder/decoder agreement between poll replies and data posts", 7)
-	c.Rule("C11.Q", "messages move only through two FIFO channels with one producer/consumer goroutine", 4)
+	c.Rule("C11.Q", "messages move only through two FIFO channels with one producer/consumer goroutine", 5)
 	c.Rule("C11.O", "order and completeness on both endpoints", 13)
 	c.Rule("C11.J", "header injection only adds missing keys", 7)
 	const pkg = ModPath + "/agent/websockets"
@@ -150,6 +150,15 @@ func runC11(c *Ctx) {
 			c.Check("C11.Q", "serverMessages:bounded-fifo", p, posOfOps(sc.Ops), okc && size >= 1, fmt.Sprintf("make(chan *message, %d): FIFO", size), "serverMessages is not a buffered channel of constant capacity")
 		case "clientMessages":
 			ok := len(recvs) == 1 && goBodyOnce(recvs[0].Fn)
+			// … and fed from SendClientMessage/Close only: a second feeding path is not ordered with the first
+			strayS := ""
+			for _, op := range sends {
+				top := FuncName(TopFunc(Owner(op.Instr)))
+				if top != "agent/websockets.(*Connection).SendClientMessage" && top != "agent/websockets.(*Connection).Close" {
+					strayS = FuncName(Owner(op.Instr)) + " at " + p.Pos(op.Instr.Pos())
+				}
+			}
+			c.Check("C11.Q", "clientMessages:single-feeding-path", p, posOfOps(sends), strayS == "", "clientMessages is fed by SendClientMessage (and Close's close frame) only", "clientMessages is also fed by "+strayS+": a direct path and a goroutine draining a backlog are not ordered with respect to each other — a later message can overtake earlier ones")
 			c.Check("C11.Q", "clientMessages:single-consumer", p, posOfOps(recvs), ok, "one receive site, in the writer goroutine started once per connection: messages are written in queue order", fmt.Sprintf("%d receive site(s) on clientMessages (must be one, in the once-started writer goroutine): two consumers reorder client messages", len(recvs)))
 		}
 	}
